@@ -37,7 +37,7 @@ func set(names ...string) map[string]bool {
 }
 
 var shims = map[string]*shim{
-	"sync": {"simsync", "dsim/shim/sync", set("Mutex", "RWMutex")},
+	"sync": {"simsync", "dsim/shim/sync", set("Mutex", "RWMutex", "Once", "OnceFunc", "OnceValue", "OnceValues", "WaitGroup", "Cond", "NewCond")},
 	"sync/atomic": {"simatomic", "dsim/shim/atomic", set(
 		"Bool", "Int32", "Int64", "Uint32", "Uint64", "Uintptr", "Pointer",
 		"AddInt32", "AddInt64", "AddUint32", "AddUint64",
